@@ -4,6 +4,7 @@ import XmlRsModel.Lemmas.DomStep
 import XmlRsModel.Lemmas.DomInit
 import XmlRsModel.Lemmas.DomNav
 import XmlRsModel.Lemmas.DomDoc
+import XmlRsModel.Thm.C02
 /-! Property C12: the DOM stays a tree — navigation views agree after any edit history.
 
     The model keeps a forest (the document tree and the detached trees); `parent`, `find`, child lists
@@ -15,7 +16,7 @@ import XmlRsModel.Lemmas.DomDoc
     (child vectors, parent ids, an id map); the check evaluates the navigation views of the real
     nodes after every step (monitor) and compares the tree with the model's (tie). -/
 namespace XmlRs.C12
-open XmlRs XmlRs.Dom List
+open XmlRs XmlRs.Dom List Gen.Xml
 
 /-- a history: the operations are applied one after the other, whatever each one answers -/
 def run (s : St) (ops : List Op) : St := ops.foldl (fun s op => (step s op).1) s
@@ -174,6 +175,176 @@ theorem parsed_has_at_most_one_element (c : CST) (d : IDoc) (h : absDocument c =
       · cases hm
     rw [h1 _ heads hh, h2]
     split <;> simp [List.countP_cons, isElemTop]
+
+def dtCount (l : List (Nat × CST)) : Nat := l.countP (fun p => p.1 == N.doctype_decl)
+
+theorem dtCount_append (a b : List (Nat × CST)) : dtCount (a ++ b) = dtCount a + dtCount b := by
+  simp [dtCount, List.countP_append]
+
+/-- a run of `misc` nodes has no document type among its outermost nodes -/
+theorem derivesAll_misc_dt (ks : List CST) (h : DerivesAll env (.nt N.misc) ks) : dtCount (kidsLL ks) = 0 := by
+  induction ks with
+  | nil => simp [kidsLL, dtCount]
+  | cons c cs ih =>
+    cases h with
+    | cons _ _ _ hc hcs =>
+      cases hc with
+      | nt n b hb =>
+        simp only [kidsLL, CST.kidsL, dtCount_append, ih hcs]
+        simp [dtCount]; decide
+
+/-- production [22] prolog as translated: at most one document type declaration -/
+theorem prolog_one_doctype (p : CST) (h : Derives env (env N.prolog) p) : dtCount p.kidsL ≤ 1 := by
+  rw [env_prolog] at h
+  unfold Prod.prolog at h
+  cases h with
+  | seq _ ks hs =>
+    cases hs with
+    | cons _ _ a r1 ha hs1 =>
+      cases hs1 with
+      | cons _ _ m r2 hm hs2 =>
+        cases hs2 with
+        | cons _ _ d r3 hd hs3 =>
+          cases hs3
+          simp only [CST.kidsL, kidsLL, dtCount_append, List.append_nil]
+          -- the XML declaration part
+          have h1 : dtCount a.kidsL = 0 := by
+            cases ha with
+            | alt _ g _ hg hd' =>
+              simp only [List.mem_cons, List.mem_singleton, List.not_mem_nil, or_false] at hg
+              rcases hg with rfl | rfl
+              · cases hd' with
+                | nt n b hb => simp [CST.kidsL, dtCount]; decide
+              · cases hd' with
+                | seq _ ks' hs' => cases hs'; simp [CST.kidsL, kidsLL, dtCount]
+          have h2 : dtCount m.kidsL = 0 := by
+            cases hm with
+            | many _ ks' hall => simpa [CST.kidsL] using derivesAll_misc_dt ks' hall
+          have h3 : dtCount d.kidsL ≤ 1 := by
+            cases hd with
+            | alt _ g _ hg hd' =>
+              simp only [List.mem_cons, List.mem_singleton, List.not_mem_nil, or_false] at hg
+              rcases hg with rfl | rfl
+              · cases hd' with
+                | seq _ ks' hs' =>
+                  cases hs' with
+                  | cons _ _ x r4 hx hs4 =>
+                    cases hs4 with
+                    | cons _ _ y r5 hy hs5 =>
+                      cases hs5
+                      cases hx with
+                      | nt n b hb =>
+                        cases hy with
+                        | many _ ks'' hall =>
+                          simp only [CST.kidsL, kidsLL, dtCount_append, List.append_nil, derivesAll_misc_dt ks'' hall]
+                          simp [dtCount]
+              · cases hd' with
+                | seq _ ks' hs' => cases hs'; simp [CST.kidsL, kidsLL, dtCount]
+          omega
+
+theorem absProlog_doctypes : ∀ (l : List (Nat × CST)) (xs : List TopItem), absProlog l = .ok xs →
+    xs.countP isDoctypeTop ≤ dtCount l
+  | [], xs, h => by simp [absProlog] at h; subst h; simp [dtCount]
+  | (n, b) :: r, xs, h => by
+    simp only [absProlog] at h
+    cases hr : absProlog r with
+    | error e => simp [hr] at h
+    | ok ys =>
+      have ih := absProlog_doctypes r ys hr
+      simp only [hr] at h
+      have hc : dtCount ((n, b) :: r) = (if n == N.doctype_decl then 1 else 0) + dtCount r := by
+        simp only [dtCount, List.countP_cons]; omega
+      rw [hc]
+      split at h
+      · next hm =>
+        have hnd : (n == N.doctype_decl) = false := by
+          have : n = N.misc := by simpa using hm
+          subst this; decide
+        simp only [Except.ok.injEq] at h
+        subst h
+        cases hmm : absMisc b with
+        | none => simp [hnd]; exact ih
+        | some i =>
+          have hi : isDoctypeTop i = false := by
+            unfold absMisc at hmm
+            split at hmm
+            · split at hmm
+              · simp at hmm; subst hmm; rfl
+              · split at hmm
+                · simp at hmm; subst hmm; rfl
+                · cases hmm
+            · cases hmm
+          simp [List.countP_cons, hi, hnd]; exact ih
+      · split at h
+        · next hd =>
+          split at h
+          · cases h
+          · simp only [Except.ok.injEq] at h; subst h
+            simp [List.countP_cons, isDoctypeTop, hd]; omega
+        · next hd =>
+          simp only [Except.ok.injEq] at h; subst h
+          have : (n == N.doctype_decl) = false := by simpa using hd
+          simp [this]; exact ih
+
+/-- what the parser delivers has at most one document element and at most one document type: the
+    hypothesis `OneRoot` of `one_element_one_doctype` holds for every parsed document -/
+theorem parsed_is_oneRoot (s : Str) (d : IDoc) (rest : Str) (h : parseDoc s = .ok (d, rest)) : OneRoot d := by
+  obtain ⟨c, hder, _, habs, _⟩ := C02.accepted_is_derivable env false s d rest h
+  refine ⟨parsed_has_at_most_one_element c d habs, ?_⟩
+  -- the document body: prolog, element, Misc*
+  cases hder with
+  | nt _ _ hbody =>
+    rw [env_document] at hbody
+    unfold Prod.document at hbody
+    cases hbody with
+    | seq _ ks hs =>
+      cases hs with
+      | cons _ _ a r1 ha hs1 =>
+        cases hs1 with
+        | cons _ _ e r2 he hs2 =>
+          cases hs2 with
+          | cons _ _ m r3 hm hs3 =>
+            cases hs3
+            cases ha with
+            | nt _ p hp =>
+              cases he with
+              | nt _ eb heb =>
+                cases hm with
+                | many _ ms hall =>
+                  have hp1 := prolog_one_doctype p hp
+                  unfold absDocument at habs
+                  have hf : findL N.prolog (CST.seq [CST.node N.prolog p, CST.node N.element eb, CST.many ms]).kidsL = some p := by
+                    simp [CST.kidsL, kidsLL, findL]
+                  simp only [hf] at habs
+                  split at habs
+                  · cases habs
+                  · next heads hh =>
+                    simp only [Except.ok.injEq] at habs
+                    subst habs
+                    have h1 := absProlog_doctypes p.kidsL heads hh
+                    have h2 : ∀ (l : List CST), (l.filterMap absMisc).countP isDoctypeTop = 0 := by
+                      intro l
+                      rw [List.countP_eq_zero]
+                      intro t ht
+                      simp only [List.mem_filterMap] at ht
+                      obtain ⟨b, _, hm'⟩ := ht
+                      unfold absMisc at hm'
+                      split at hm'
+                      · split at hm'
+                        · simp at hm'; subst hm'; simp [isDoctypeTop]
+                        · split at hm'
+                          · simp at hm'; subst hm'; simp [isDoctypeTop]
+                          · cases hm'
+                      · cases hm'
+                    simp only [List.countP_append, h2]
+                    split
+                    · simp only [List.countP_cons, List.countP_nil, isDoctypeTop, Bool.false_eq_true, if_false]; omega
+                    · simp only [List.countP_nil]; omega
+
+/-- the C12 statement for documents as the parser delivers them: no hypothesis left -/
+theorem one_element_one_doctype_parsed (s : Str) (d : IDoc) (rest : Str) (h : parseDoc s = .ok (d, rest)) (ops : List Op) :
+    cntK isElemK (run (buildSt d) ops).doc.kids ≤ 1 ∧ cntK isDoctypeK (run (buildSt d) ops).doc.kids ≤ 1 :=
+  one_element_one_doctype d (parsed_is_oneRoot s d rest h) ops
 
 example : OneRoot ⟨none, none, none, [.comment [], .elem (.elem ⟨none, ['a']⟩ [] [])]⟩ := by
   constructor <;> decide
